@@ -8,51 +8,40 @@ Require Import MV.Lib.Base MV.C02.Defs MV.C02.Gen MV.C02.Model MV.C02.Proofs_Bas
                MV.C02.Proofs_Clear.
 Open Scope Z_scope.
 
-(* ------------------------------------------------------------ (a) every edge exactly once *)
-Lemma NoDup_app_disj {A} (l1 l2 : list A) :
-  NoDup l1 -> NoDup l2 -> (forall x, In x l1 -> ~ In x l2) -> NoDup (l1 ++ l2).
+(* ------------------------------------------------------------ (a) every edge exactly once: the whole final edge list is
+   duplicate-free - an edge declared more than once is kept once (its first declaration) - and holds exactly the valid
+   keyified declared edges and the valid sides of the faces *)
+Theorem edges_nodup c r r' : prepare c r = Ok r' -> NoDup (edges r').
+Proof. intros H. now destruct (edges_thm c r r' H) as (_ & Hnd & _). Qed.
+
+Theorem edges_members c r r' : prepare c r = Ok r' -> snd c = true ->
+  forall e, In e (edges r') <->
+    (evalid (zlen (vertices r)) e = true /\ (In e (map kedge (edges r)) \/ exists f, In f (faces r') /\ In e (face_sides f))).
 Proof.
-  induction l1 as [|a t IH]; cbn; intros H1 H2 Hd; [assumption|].
-  inversion H1; subst. constructor.
-  - intros Hin. apply in_app_or in Hin as [Hin|Hin]; [contradiction | apply (Hd a); auto].
-  - apply IH; auto.
+  intros H Hc e. destruct (edges_thm c r r' H) as (He & _ & _ & _ & Hex & Hall & _). rewrite He. split.
+  - intros Hin. apply in_app_or in Hin as [Hin|Hin].
+    + apply norm_edges_In, filter_In in Hin as [Hin Hv]. auto.
+    + apply filter_In in Hin as [Hin Hv]. split; [assumption|]. right. now apply Hex.
+  - intros [Hv [Hin|[f [Hf Hs]]]].
+    + apply in_or_app. left. apply norm_edges_In, filter_In. auto.
+    + apply in_or_app. destruct (in_app_or _ _ _ (Hall Hc f e Hf Hs)) as [Hin|Hin].
+      * left. apply norm_edges_In, filter_In. auto.
+      * right. apply filter_In. auto.
 Qed.
 
-Lemma NoDup_filter' {A} (p : A -> bool) l : NoDup l -> NoDup (filter p l).
-Proof.
-  induction 1 as [|a t Hn Hd IH]; cbn; [constructor|]. destruct (p a); [|assumption].
-  constructor; [|assumption]. intros Hin. apply filter_In in Hin as [Hin _]. contradiction.
-Qed.
-
-(* GUARD (named): the surviving declared edges are pairwise distinct once keyified.  Under it the whole final edge list is
-   duplicate-free; without it the statement is false (edges_nodup_refuted): the code keeps a declared edge as often as it
-   was declared. *)
-Theorem edges_nodup_if_declared_distinct c r r' : prepare c r = Ok r' ->
-  NoDup (filter (evalid (zlen (vertices r))) (map kedge (edges r))) -> NoDup (edges r').
-Proof.
-  intros H Hd. destruct (edges_thm c r r' H) as (He & Hnd & Hdis & _). rewrite He.
-  apply NoDup_app_disj; [assumption | now apply NoDup_filter' |].
-  intros x Hx Hy. apply filter_In in Hx as [Hx _]. apply filter_In in Hy as [Hy _]. now apply (Hdis x).
-Qed.
-
-Corollary side_once_if_declared_distinct c r r' : prepare c r = Ok r' -> snd c = true ->
-  NoDup (filter (evalid (zlen (vertices r))) (map kedge (edges r))) ->
+Corollary side_once c r r' : prepare c r = Ok r' -> snd c = true ->
   forall f s, In f (faces r') -> In s (face_sides f) -> evalid (zlen (vertices r)) s = true ->
               count_occ edge_dec (edges r') s = 1%nat.
-Proof.
-  intros H Hc Hd f s Hf Hs Hv. apply NoDup_count_occ'.
-  - now apply (edges_nodup_if_declared_distinct c r r').
-  - eapply sides_present; eauto.
-Qed.
+Proof. intros H Hc f s Hf Hs Hv. apply (edge_once c r r' H). eapply sides_present; eauto. Qed.
 
 Definition dup_raw : raw :=
-  mkRaw [[0; 0; 0]; [1; 0; 0]; [0; 1; 0]] [(0, 1); (1, 0)] [] [[0; 1; 2]] [] [] [] [] [] [] [].
+  mkRaw [[0; 0; 0]; [1; 0; 0]; [0; 1; 0]] [(0, 1); (1, 0)] [(1, Dense 0 [5; 6])] [[0; 1; 2]] [] [] [] [] [] [] [].
 
-Theorem edges_nodup_refuted : exists c r r', prepare c r = Ok r' /\ ~ NoDup (edges r').
-Proof.
-  exists (true, true), dup_raw. eexists. split; [vm_compute; reflexivity|].
-  cbn. intros H. inversion H as [|x l Hn _]; subst. apply Hn. now left.
-Qed.
+(* the former counter-example: the edge declared twice is kept once, with the value of its first declaration *)
+Example dup_raw_once : exists r', prepare (true, true) dup_raw = Ok r'
+  /\ edges r' = [(0, 1); (1, 2); (0, 2)]
+  /\ map (fun na => map (attr_get (snd na)) (zrange 3)) (eattrs r') = [[5; 0; 0]; [1; 0; 0]].
+Proof. eexists. split; [vm_compute; reflexivity|]. split; reflexivity. Qed.
 
 (* ------------------------------------------------------------ (b) pre-filled corner containers *)
 Lemma sum_len_app a b : sum_len (a ++ b) = sum_len a + sum_len b.
